@@ -33,7 +33,7 @@ ASSUMPTIONS = [
     "corrupt files share no global names with P that P references, so 'apart from references into it' is empty",
     "termination is approximated by a 60 s watchdog per case (median case ~30 ms)",
 ]
-WATCHDOG_S = 60
+WATCHDOG_S = 30
 FORD_OPTS = dict(display=["public", "private", "protected"], proc_internals=True)
 JUNK = ["this is not fortran", "end", "end module nonexistent", "contains", "&", "& continued", "x = 1 !> inline predoc",
         "x = 'unterminated", "type, extends( :: t", "interface", "((((", "associate (a => b)", "block", ")",
@@ -213,8 +213,9 @@ def enumerated(tier, excl):
                        "classes": ["P:c08", "B:c08", "corrupt:truncate-enum"], "nfilesP": len(P), "enum": True}
 
 
-class Timeout(Exception):
-    pass
+class Timeout(BaseException):
+    """Raised by the watchdog.  Not an Exception: FORD reports any Exception raised while a file is parsed as a parse
+    error of that file and carries on, which would turn a hang into an ordinary rejection."""
 
 
 def _alarm(signum, frame):
